@@ -205,6 +205,7 @@ func (ifs *IfStatement) WriteTo(cw *CodeWriter) {
 	cw.WriteSpace()
 	ifs.ThenBranch.WriteTo(cw)
 	if ifs.ElseBranch != nil {
+		cw.TerminateStatement()
 		cw.WriteString(" else ")
 		ifs.ElseBranch.WriteTo(cw)
 	}
